@@ -96,7 +96,60 @@ TraceTlvBound ==
     /\ Emit(Sel("C03", {<< "C03", "iteration-did-not-end", "tlv-next" >>}) \cup Sel("C11", {<< "C11", "iteration-did-not-end", "tlv-next" >>}), {})
     /\ UNCHANGED << section, offset, yielded, calls >>
 
-TraceNext == TraceOpen \/ TraceTlvNext \/ TraceTlvDerived \/ TraceTlvBound
+(***************************************************************************)
+(* Programs: after TlvRestart (a fresh cursor on the same section) every   *)
+(* event is one operation on that ONE cursor - next(), nth(n), or a        *)
+(* consuming adaptor run on a clone of the moved cursor (the cursor itself *)
+(* is then drained) - and must return what the cursor specification says   *)
+(* for the state the earlier operations left.                              *)
+(***************************************************************************)
+ItemsMatch(obs, exp) == Len(obs) = Len(exp) /\ \A i \in 1..Len(exp) : SameItem(obs[i], exp[i])
+
+TraceRestart ==
+    /\ IsEvent("TlvRestart")
+    /\ Open(section)
+    /\ calls' = 0
+
+TraceTlvNth ==
+    /\ IsEvent("TlvNth")
+    /\ LET exp == NthFrom(offset, NthArg(Ev.n)).item
+           r == Ev.r
+       IN  Emit(Sel("C11", IF r.k = "panic" THEN {}
+                           ELSE IF ~SameItem(r, exp) THEN {<< "C11", "nth-on-a-moved-cursor-differs-from-standard-walk", exp.k >>}
+                           ELSE {})
+                \cup Sel("C03", IF r.k = "panic" THEN {<< "C03", "panic", "tlv-nth" >>} ELSE {}),
+                Flag("C11", Len(section) > 0) \cup Flag("C03", TRUE))
+    /\ Nth(Ev.n)
+    /\ calls' = calls + 1
+
+TraceTlvRest ==
+    /\ IsEvent("TlvRest")
+    /\ LET rest == RestFrom(offset)
+           r == Ev.r
+           none == [k |-> "none"]
+           wrong == IF r.k # "ok" THEN FALSE
+                    ELSE CASE Ev.how \in {"count", "fold"} -> r.n # Len(rest)
+                           [] Ev.how = "last" -> ~SameItem(r.item, IF rest = << >> THEN none ELSE rest[Len(rest)])
+                           [] OTHER -> ~ItemsMatch(r.items, rest)
+       IN  Emit(Sel("C11", IF wrong THEN {<< "C11", "rest-of-a-moved-cursor-differs-from-standard-walk", Ev.how >>} ELSE {})
+                \cup Sel("C03", IF r.k = "panic" THEN {<< "C03", "panic", "tlv-rest" >>} ELSE {}),
+                Flag("C11", Len(section) > 0) \cup Flag("C03", TRUE))
+    /\ Drain
+    /\ calls' = calls + 1
+
+(* step_by(k) on a fresh cursor: items 1, 1 + k, 1 + 2k, ... of the walk *)
+TraceTlvStepBy ==
+    /\ IsEvent("TlvStepBy")
+    /\ LET W == Walk(section)
+           k == Ev.k
+           exp == [i \in 1..((Len(W) + k - 1) \div k) |-> W[1 + (i - 1) * k]]
+           r == Ev.r
+       IN  Emit(Sel("C11", IF r.k = "ok" /\ ~ItemsMatch(r.items, exp) THEN {<< "C11", "step_by-differs-from-standard-walk", "derived" >>} ELSE {})
+                \cup Sel("C03", IF r.k = "panic" THEN {<< "C03", "panic", "tlv-step_by" >>} ELSE {}),
+                Flag("C11", Len(section) > 0) \cup Flag("C03", TRUE))
+    /\ UNCHANGED << section, offset, yielded, calls >>
+
+TraceNext == TraceOpen \/ TraceTlvNext \/ TraceTlvDerived \/ TraceTlvBound \/ TraceRestart \/ TraceTlvNth \/ TraceTlvRest \/ TraceTlvStepBy
 
 TraceSpec == TraceInit /\ [][TraceNext]_tvars
 
